@@ -47,6 +47,15 @@ func misuses() []misuse {
 			k, fq := kid(pkg)
 			return []*spec.Field{spec.FM("bad_field", 1, fq).Opt().With(func(a *spec.Ann) { a.Nullable = spec.B(true) })}, []*spec.Message{k}, nil, nil
 		}),
+		one("nullable-oneof-member", true, []string{"bad_field"}, func(pkg string) ([]*spec.Field, []*spec.Message, []*spec.EnumDef, []*spec.Oneof) {
+			return []*spec.Field{spec.F("bad_field", 1, spec.String).In(1).With(func(a *spec.Ann) { a.Nullable = spec.B(true) }), spec.F("alt", 2, spec.Int32).In(1)}, nil, nil, []*spec.Oneof{{Name: "pick"}}
+		}),
+		one("nullable-repeated", true, []string{"bad_field"}, noX(spec.F("bad_field", 1, spec.String).Rep().With(func(a *spec.Ann) { a.Nullable = spec.B(true) }))),
+		one("nullable-map", true, []string{"bad_field"}, noX(spec.F("bad_field", 1, spec.String).MapOf(spec.String).With(func(a *spec.Ann) { a.Nullable = spec.B(true) }))),
+		one("nullable-optional-message", true, []string{"bad_field"}, func(pkg string) ([]*spec.Field, []*spec.Message, []*spec.EnumDef, []*spec.Oneof) {
+			k, fq := kid(pkg)
+			return []*spec.Field{spec.FM("bad_field", 1, fq).In(1).With(func(a *spec.Ann) { a.Nullable = spec.B(true) }), spec.F("alt", 2, spec.Int32).In(1)}, []*spec.Message{k}, nil, []*spec.Oneof{{Name: "pick"}}
+		}),
 		one("empty_behavior-scalar", true, []string{"bad_field"}, noX(spec.F("bad_field", 1, spec.String).With(func(a *spec.Ann) { a.EmptyBehavior = 2 }))),
 		one("empty_behavior-repeated", true, []string{"bad_field"}, func(pkg string) ([]*spec.Field, []*spec.Message, []*spec.EnumDef, []*spec.Oneof) {
 			k, fq := kid(pkg)
